@@ -488,9 +488,10 @@ def amalgamate_csr_to_x(
             n_valid += src['data'].shape[0]
             if data_dtype is None:
                 data_dtype = src['data'].dtype
-            this_max = src['indices'][()].max()
-            if this_max > indices_max:
-                indices_max = this_max
+            if src['indices'].shape[0] > 0:
+                this_max = src['indices'][()].max()
+                if this_max > indices_max:
+                    indices_max = this_max
 
     cutoff = np.iinfo(np.int32).max
     if indices_max >= cutoff or n_valid >= cutoff:
